@@ -108,6 +108,19 @@ def lcm(xs):
     return r
 
 
+_BASE_PC = {"C": 0, "D": 2, "E": 4, "F": 5, "G": 7, "A": 9, "B": 11}
+
+
+def spelled_pitch(n):
+    """MIDI pitch of a note from its spelling by twelve-tone arithmetic (C4 = 60, each accidental one semitone), whatever numeric type the
+    attributes have; notes without a spelling (unpitched) keep the library's value"""
+    step = getattr(n, "step", None)
+    if step is None or getattr(n, "octave", None) is None or str(step).upper() not in _BASE_PC:
+        return n.midi_pitch
+    alter = getattr(n, "alter", None)
+    return 12 * (int(n.octave) + 1) + _BASE_PC[str(step).upper()] + (0 if alter is None else int(alter))
+
+
 def sounding_notes(part):
     """(onset_div, duration_div, midi_pitch, first note) per sounding note: tie chains merged, grace notes zero duration"""
     sc = _sc()
@@ -119,5 +132,5 @@ def sounding_notes(part):
         while end.tie_next is not None:
             end = end.tie_next
         dur = 0 if isinstance(n, sc.GraceNote) else end.end.t - n.start.t
-        out.append((n.start.t, dur, n.midi_pitch, n))
+        out.append((n.start.t, dur, spelled_pitch(n), n))
     return out
